@@ -429,6 +429,12 @@ func writeEvidence(verifDir string, pd *PropertyDef, tier string, seed int, oc *
 		}
 		sort.Strings(ab)
 		cov["abstracted"] = ab
+		var ai []string
+		for k := range oc.Engine.AutoInlined {
+			ai = append(ai, k)
+		}
+		sort.Strings(ai)
+		cov["executed_in_place_without_contract"] = ai
 		cov["notes"] = oc.Engine.Notes
 		cov["bounded"] = pd.Bounded
 		cov["decided"] = pd.Decided
